@@ -1,0 +1,10 @@
+//go:build verif
+
+// Contracts for package parser, checked by /verif/govc (comment-only; compiled only under tag verif).
+package parser
+
+// Error rendering never indexes outside the input and never asks for a negative repetition.
+//@ func (*Parser).ErrorLine
+//@   requires p != nil && p.l != nil && lexer.wf(p.l)
+//@   modifies *
+//@   property C08
